@@ -165,6 +165,8 @@ package interp
 //@   ensures[C13] alt-none: pe.Word != nil && ((pe.Op == ":+" && !(set && !null)) || (pe.Op == "+" && !set)) ==> !site(WORD) && !site(PARAM) && !site(ASSIGN) && result1 == nil
 //@   ensures[C13] trim-match: pe.Word != nil && (pe.Op == "%" || pe.Op == "%%" || pe.Op == "#" || pe.Op == "##") && set && !null && result1 == nil ==> site(WORD) && !site(PARAM) && !site(ASSIGN)
 //@   ensures[C13] trim-unset-nounset: pe.Word != nil && (pe.Op == "%" || pe.Op == "%%" || pe.Op == "#" || pe.Op == "##") && !set && env.Opts&NoUnset != 0 ==> result1 is ParamExpError
+//@   ensures[C13] trim-null-is-not-an-error: pe.Word != nil && (pe.Op == "%" || pe.Op == "%%" || pe.Op == "#" || pe.Op == "##") && set && null ==> result1 == nil
+//@   ensures[C13] trim-unset-without-nounset-is-not-an-error: pe.Word != nil && (pe.Op == "%" || pe.Op == "%%" || pe.Op == "#" || pe.Op == "##") && !set && env.Opts&NoUnset == 0 ==> result1 == nil
 //@   ensures[C13] trim-none: pe.Word != nil && (pe.Op == "%" || pe.Op == "%%" || pe.Op == "#" || pe.Op == "##") && !(set && !null) ==> !site(WORD) && !site(MATCH) && !site(PARAM) && !site(ASSIGN)
 //@   ensures[C13] no-assign-on-error: result1 is ParamExpError ==> !site(ASSIGN)
 //@   assert[C13] at call pattern.Match: trim-mode: (pe.Op == "%" ==> arg1 == pattern.Suffix|pattern.Smallest) && (pe.Op == "%%" ==> arg1 == pattern.Suffix|pattern.Largest) && (pe.Op == "#" ==> arg1 == pattern.Prefix|pattern.Smallest) && (pe.Op == "##" ==> arg1 == pattern.Prefix|pattern.Largest)
